@@ -103,17 +103,28 @@ def run(prop, tier, replay=None):
                               "deadline_ms": ln["a"].get("deadline_ms"), "goroutines": ln["a"].get("goroutines"),
                               "stacks": ln["a"].get("stacks"), "scenario": sc,
                               "history": [[x["ev"], x["a"]] for x in by_t[ln["t"]] if x["n"] < ln["n"]][-40:]})
+    panics = Counter()
+    for ln in lines:
+        if ln["ev"] == "Panic":
+            sig = fs.panic_signature(ln)
+            panics[sig] += 1
+            sc = scenarios[ln["t"] - 1] if 0 < ln["t"] <= len(scenarios) else None
+            verdict.add(sig, {"kind": "panic in the code under test (recovered by the harness)", "call": ln["a"].get("call"),
+                              "value": ln["a"].get("value"), "first_frame_in_package": ln["a"].get("fn"), "stack": ln["a"].get("stack"),
+                              "args": {k: ln["a"].get(k) for k in ("s", "v")}, "scenario": sc if len(json.dumps(sc)) < 20000 else {"src": sc.get("src")},
+                              "history": [[x["ev"], {k: v for k, v in x["a"].items() if k not in ("stacks", "goroutines", "stack")}]
+                                          for x in by_t[ln["t"]] if x["n"] < ln["n"]][-40:]})
     rejects = Counter()
     for t, bad in sorted(first_bad.items()):
-        if bad is None or bad["ev"] == "Timeout":
-            continue   # a Timeout line is already reported as a stall
+        if bad is None or bad["ev"] in ("Timeout", "Panic"):
+            continue   # Timeout / Panic lines are already reported as a stall / a panic
         sig = fs.classify_reject(by_t[t], bad)
         rejects[sig] += 1
         sc = scenarios[t - 1] if 0 < t <= len(scenarios) else None
         verdict.add(sig, {"kind": "trace line rejected by TLC", "line": {"ev": bad["ev"], "a": bad["a"], "n": bad["n"]}, "scenario": sc,
                           "history": [[x["ev"], x["a"]] for x in by_t[t] if x["n"] < bad["n"]][-60:]})
     for t, bad in first_bad.items():
-        if bad is not None and bad["ev"] == "Timeout" and not any(x["ev"] == "Timeout" for x in by_t[t]):
+        if bad is not None and bad["ev"] in ("Timeout", "Panic") and not any(x["ev"] == bad["ev"] for x in by_t[t]):
             raise vlib.Broken("inconsistent trace bookkeeping")
     rc = verdict.finish()
 
@@ -150,8 +161,8 @@ def run(prop, tier, replay=None):
         "mc_configs": mc_info, "trace_spec_states": r["distinct"],
         "events": dict(acts), "scenario_sources": dict(Counter(sc.get("src") for sc in scenarios)),
         "scenarios_run_to_End": complete, "traces_fully_explained": len(first_bad) - nrej,
-        "stalls_reproduced": dict(stalls), "rejected_lines": dict(rejects),
-        "floods": [dict(ln["a"], trace=ln["t"], stalled_out=any(x["ev"] == "Timeout" for x in by_t[ln["t"]]),
+        "stalls_reproduced": dict(stalls), "panics": dict(panics), "rejected_lines": dict(rejects),
+        "floods": [dict(ln["a"], trace=ln["t"], stalled_out=any(x["ev"] == "Timeout" for x in by_t[ln["t"]]), panicked=any(x["ev"] == "Panic" for x in by_t[ln["t"]]),
                         ran_to_End=by_t[ln["t"]][-1]["ev"] == "End") for ln in lines if ln["ev"] == "FloodInfo"],
         "max_subscribers": max([sum(1 for x in tl if x["ev"] == "SubscribeCalled") for tl in by_t.values()] or [0]),
         "max_vaas": max([sum(1 for x in tl if x["ev"] == "PublishCalled") for tl in by_t.values()] or [0]),
